@@ -330,17 +330,19 @@ def render(case):
     labs = {}
     for i, (p, a) in enumerate(zip(case['pos'], case['att'])):
         labs.setdefault(p, []).append((i, a))
+    form = case.get('form', '')
+    pcs = {'8086': '$'}.get(case['t'], '*')
     for idx in range(len(body) + 1):
         attached = ''
         for i, a in labs.get(idx, []):
             if a:
                 attached = 'L%d:' % i
             else:
-                lines.append('L%d:' % i)
+                lines.append('L%d:' % i if 'equ' not in form else 'L%d\tequ %s' % (i, pcs))
         if idx < len(body):
             it = body[idx]
             if it[0] == 'R':
-                txt = T.src(it[1], 'L%d' % it[2])
+                txt = T.src(it[1], ('L%d+0' if 'plus0' in form else 'L%d') % it[2])
             elif it[0] == 'GAP':
                 txt = T.gap(it[1])
             elif it[0] == 'ORGLO':
@@ -492,6 +494,17 @@ def subspaces(tier):
     if not q:
         for tn in TARGETS:
             subs.append(('skeleton+org-%s-2labels<=3' % tn, programs(tn, 2, 3, org=True)))
+    # the same skeletons with the label written as `name EQU <pc>` and/or referred to as `name+0`: whatever a code generator
+    # remembers about "the label behind this instruction" must hold for these spellings too
+    def forms():
+        for tn in TARGETS:
+            for form in ('equ', 'plus0', 'equ+plus0'):
+                for c in programs(tn, 1, 2 if q else 3):
+                    if 'equ' in form and (any(c['att']) or tn == '68000-pad1'):
+                        continue      # (under PADDING ON a label in front of a padded word moves with it, `equ *` reads the odd address)
+                    c['form'] = form
+                    yield c
+    subs.append(('skeleton-label-and-reference-spellings', forms()))
     subs.append(('sections-and-forward-declarations', scoped()))
     subs.append(('labels-local-to-macro-and-repetition-bodies', maclocal()))
     subs.append(('golden-corpus-extra-pass', [{'k': 'corpus', 't': t} for t in corpus.tests()]))
